@@ -36,7 +36,7 @@ RULE = ('(a) .debug_aranges: 0-8 sets (32-bit DWARF format, version 2, address s
         'middle-outwards/permuted on used and fresh objects, get_CU_at at every unit offset in permuted order, aranges -> get_CU_at. '
         'Non-trivial: >= 2 sets (with at least one range / name) or >= 2 units, and a boundary query (first/last byte of a range, '
         'first/last offset of a unit, first/last name of a set) was checked. Distinct by SHA-1 of the encoded sections + operations.')
-N = {'quick': 4000, 'thorough': 100000}
+N = {'quick': 3000, 'thorough': 100000}
 ASSUMPTIONS = [
     'lookup tables use the 32-bit DWARF format, version 2, segment_selector_size 0; every aranges set starts at a multiple of 2*address_size',
     'address ranges of one table do not overlap (a zero-length range never lies inside or at the start of another range, except in the '
